@@ -3,7 +3,8 @@
    Models: Model/ExprSyntax.v (tokens, precedence-ladder parser of expr/parser.go, printer),
            Model/ExprEval.v (evaluateNodeValue / ...WithNull / evaluateBoolNode / compareValues / CASE),
            Model/Sem.v (reference semantics of the statement). *)
-From SV Require Import Model.Sem Proofs.ExprParseProofs Proofs.ExprEvalProofs Proofs.ExprPadProofs.
+From Coq Require Import SetoidList Qabs.
+From SV Require Import Model.Sem Model.ExprFuncs Proofs.ExprParseProofs Proofs.ExprEvalProofs Proofs.ExprPadProofs Proofs.ExprFuncsProofs.
 
 (* precedence and parentheses: the parser reads back exactly the tree the printer wrote, where the
    printer inserts only the parentheses the ladder OR < AND < comparison < + - < * / % < ^ < unary -
@@ -75,6 +76,329 @@ Theorem C06_pad_call : forall (left : bool) (s : bytes) (n : nat) (pad : bytes),
 Proof. exact fn_call_pad. Qed.
 Print Assumptions C06_pad_call.
 
+(* ================= the documented value of the other built-ins (Model/ExprFuncs.v) =================
+   [fx_call name args] is Validate (argument count) followed by Execute, over scalars and arrays of
+   scalars; the correspondence check judges the three dispatchers of the engine by it (G lines). *)
+
+(* a call ends in a value, an error, or outside the modelled fragment - nothing else (no panic), for
+   every name and every argument list; so does every expression built from calls *)
+Theorem C06_call_total : forall n args,
+  (exists v, fx_call n args = YOk v) \/ fx_call n args = YErr \/ fx_call n args = YUnm.
+Proof. exact fx_call_total. Qed.
+Print Assumptions C06_call_total.
+Theorem C06_call_expr_total : forall row t,
+  (exists v, ysem_top row t = YOk v) \/ ysem_top row t = YErr \/ ysem_top row t = YUnm.
+Proof. exact ysem_top_total. Qed.
+Print Assumptions C06_call_expr_total.
+
+(* a wrong number of arguments is an error, whatever the arguments are *)
+Theorem C06_call_bad_arity : forall n a args,
+  fx_arity n = Some a -> arity_ok a (length args) = false -> fx_call n args = YErr.
+Proof. exact fx_call_bad_arity. Qed.
+Print Assumptions C06_call_bad_arity.
+
+(* ---- arrays ---- *)
+(* array_distinct: no two equal elements, exactly the elements of the array, in the order of their
+   first occurrences (a subsequence in which every first occurrence itself survives) *)
+Theorem C06_array_distinct : forall l,
+  NoDupA veqP (arr_distinct l) /\
+  (forall x, InA veqP x (arr_distinct l) <-> InA veqP x l) /\
+  sublist (arr_distinct l) l /\
+  (forall l1 x l2, l = l1 ++ x :: l2 -> mem_v x l1 = false ->
+     exists r1 r2, arr_distinct l = r1 ++ x :: r2 /\ sublist r1 l1).
+Proof. exact arr_distinct_spec. Qed.
+Print Assumptions C06_array_distinct.
+
+(* array_remove removes exactly the elements equal to the value and keeps the order of the others *)
+Theorem C06_array_remove : forall l v,
+  arr_remove l v = filter (fun x => negb (veq x v)) l /\
+  sublist (arr_remove l v) l /\
+  (forall x, In x (arr_remove l v) <-> In x l /\ veq x v = false) /\
+  (mem_v v l = false -> arr_remove l v = l).
+Proof. exact arr_remove_spec. Qed.
+Print Assumptions C06_array_remove.
+
+(* array_position: 0 iff the value does not occur, otherwise the 1-based index of its first occurrence *)
+Theorem C06_array_position : forall l v,
+  (arr_position l v = O <-> mem_v v l = false) /\
+  (forall p, arr_position l v = S p ->
+     (p < length l)%nat /\ veq (nth p l VNull) v = true /\ forall j, (j < p)%nat -> veq (nth j l VNull) v = false).
+Proof. exact arr_position_spec. Qed.
+Print Assumptions C06_array_position.
+Theorem C06_array_contains : forall l v,
+  mem_v v l = true <-> exists y, In y l /\ veq v y = true.
+Proof. exact arr_contains_spec. Qed.
+Print Assumptions C06_array_contains.
+
+(* union / intersection / difference: duplicate-free, with exactly the elements they should have;
+   intersection and difference keep the order of the first array *)
+Theorem C06_array_union : forall a b,
+  NoDupA veqP (arr_union a b) /\
+  (forall x, InA veqP x (arr_union a b) <-> InA veqP x a \/ InA veqP x b).
+Proof. exact arr_union_spec. Qed.
+Print Assumptions C06_array_union.
+Theorem C06_array_intersect : forall a b,
+  NoDupA veqP (arr_intersect a b) /\ sublist (arr_intersect a b) a /\
+  (forall x, InA veqP x (arr_intersect a b) <-> InA veqP x a /\ InA veqP x b).
+Proof. exact arr_intersect_spec. Qed.
+Print Assumptions C06_array_intersect.
+Theorem C06_array_except : forall a b,
+  NoDupA veqP (arr_except a b) /\ sublist (arr_except a b) a /\
+  (forall x, InA veqP x (arr_except a b) <-> InA veqP x a /\ ~ InA veqP x b).
+Proof. exact arr_except_spec. Qed.
+Print Assumptions C06_array_except.
+
+(* ---- strings ---- *)
+(* upper / lower keep the length, are idempotent, leave no letter of the other case, and are the
+   identity on a string that has none *)
+Theorem C06_upper_lower : forall s,
+  length (map ascii_upper s) = length s /\ length (map ascii_lower s) = length s /\
+  map ascii_upper (map ascii_upper s) = map ascii_upper s /\
+  map ascii_lower (map ascii_lower s) = map ascii_lower s /\
+  forallb (fun c => negb (is_lower_letter c)) (map ascii_upper s) = true /\
+  forallb (fun c => negb (is_upper_letter c)) (map ascii_lower s) = true /\
+  (forallb (fun c => negb (is_lower_letter c)) s = true -> map ascii_upper s = s) /\
+  (forallb (fun c => negb (is_upper_letter c)) s = true -> map ascii_lower s = s).
+Proof. exact upper_lower_spec. Qed.
+Print Assumptions C06_upper_lower.
+Theorem C06_upper_lower_call : forall s, all_ascii s = true ->
+  fx_call nm_upper [YS (VStr s)] = ystr (map ascii_upper s) /\
+  fx_call nm_lower [YS (VStr s)] = ystr (map ascii_lower s).
+Proof. exact fx_upper_call. Qed.
+Print Assumptions C06_upper_lower_call.
+
+(* ltrim / rtrim / trim remove exactly a maximal run of blanks at the left / right / both ends:
+   what is removed is all blank, what remains neither starts nor ends with a blank; trim is idempotent *)
+Theorem C06_trim : forall p s,
+  (exists pre, s = pre ++ trim_left p s /\ forallb p pre = true /\ head_not p (trim_left p s)) /\
+  (exists post, s = trim_right p s ++ post /\ forallb p post = true /\ head_not p (rev (trim_right p s))) /\
+  (exists pre post, s = pre ++ trim_both p s ++ post /\ forallb p pre = true /\ forallb p post = true /\
+                    head_not p (trim_both p s) /\ head_not p (rev (trim_both p s))) /\
+  trim_both p (trim_both p s) = trim_both p s.
+Proof. exact trim_spec. Qed.
+Print Assumptions C06_trim.
+
+(* substring(s, start [, len]): a contiguous part of s; for 0 <= start < |s| it starts at start and has
+   min(len, |s| - start) bytes; a negative start counts from the end (clamped at 0); a start beyond the
+   end and a negative length give the empty string *)
+Theorem C06_substring : forall s st len,
+  (exists pre post, s = pre ++ substring_b s st len ++ post) /\
+  (forall l, (0 <= st < Z.of_nat (length s))%Z -> (0 <= l)%Z -> len = Some l ->
+     substring_b s st len = firstn (Z.to_nat l) (skipn (Z.to_nat st) s) /\
+     Z.of_nat (length (substring_b s st len)) = Z.min l (Z.of_nat (length s) - st)) /\
+  ((0 <= st < Z.of_nat (length s))%Z -> len = None -> substring_b s st len = skipn (Z.to_nat st) s) /\
+  ((st < 0)%Z -> substring_b s st len = substring_b s (Z.max 0 (Z.of_nat (length s) + st)) len) /\
+  ((Z.of_nat (length s) <= st)%Z -> substring_b s st len = []) /\
+  (forall l, (l < 0)%Z -> len = Some l -> substring_b s st len = []).
+Proof. exact substring_b_spec. Qed.
+Print Assumptions C06_substring.
+
+(* split: the pieces joined by the separator give the string back; without an occurrence there is one piece *)
+Theorem C06_split_join : forall s sep, sep <> [] -> join_b sep (split_b s sep) = s.
+Proof. exact split_join. Qed.
+Print Assumptions C06_split_join.
+Theorem C06_split_absent : forall s sep, sep <> [] -> contains s sep = false -> split_b s sep = [s].
+Proof. exact split_absent. Qed.
+Print Assumptions C06_split_absent.
+
+(* replace(s, old, new) = join(split(s, old), new); an absent needle and new = old leave s unchanged *)
+Theorem C06_replace : forall s old new, old <> [] ->
+  replace_b s old new = join_b new (split_b s old) /\
+  (contains s old = false -> replace_b s old new = s) /\
+  replace_b s old old = s.
+Proof. exact replace_spec. Qed.
+Print Assumptions C06_replace.
+Theorem C06_replace_empty_needle : forall s new,
+  replace_b s [] new = new ++ flat_map (fun c => c :: new) s /\
+  length (replace_b s [] new) = (length s + (length s + 1) * length new)%nat.
+Proof. exact replace_empty_spec. Qed.
+Print Assumptions C06_replace_empty_needle.
+
+(* startswith / endswith *)
+Theorem C06_startswith : forall p t, has_prefix t p = true <-> exists r, t = p ++ r.
+Proof. exact has_prefix_iff. Qed.
+Print Assumptions C06_startswith.
+Theorem C06_endswith : forall p t, has_suffix t p = true <-> exists r, t = r ++ p.
+Proof. exact has_suffix_iff. Qed.
+Print Assumptions C06_endswith.
+
+(* indexof: -1 iff the needle does not occur; otherwise the needle starts there and nowhere before *)
+Theorem C06_indexof : forall s p,
+  ((index_b s p = -1)%Z <-> contains s p = false) /\
+  (forall k, index_b s p = Z.of_nat k ->
+     (k <= length s)%nat /\ has_prefix (skipn k s) p = true /\ forall m, (m < k)%nat -> has_prefix (skipn m s) p = false) /\
+  (-1 <= index_b s p <= Z.of_nat (length s))%Z.
+Proof. exact index_b_spec. Qed.
+Print Assumptions C06_indexof.
+
+Theorem C06_concat : forall l, l <> [] ->
+  fx_call nm_concat (map (fun s => YS (VStr s)) l) = ystr (concat l).
+Proof. exact fx_concat_strings. Qed.
+Print Assumptions C06_concat.
+
+(* ---- numbers ---- *)
+(* floor <= x < floor + 1, ceil - 1 < x <= ceil, |x - round x| <= 1/2 *)
+Theorem C06_floor_ceil_round : forall q,
+  (inject_Z (qfloor q) <= q /\ q < inject_Z (qfloor q) + 1) /\
+  (q <= inject_Z (qceil q) /\ inject_Z (qceil q) - 1 < q) /\
+  (inject_Z (qround q) - (1 # 2) <= q /\ q <= inject_Z (qround q) + (1 # 2)) /\
+  (qfloor q <= qceil q)%Z.
+Proof. exact floor_ceil_round_bracket. Qed.
+Print Assumptions C06_floor_ceil_round.
+Theorem C06_floor_ceil_round_call : forall q,
+  fx_call nm_floor [YS (VNum q)] = ynum (qofz (qfloor q)) /\
+  fx_call nm_ceil [YS (VNum q)] = ynum (qofz (qceil q)) /\
+  fx_call nm_round [YS (VNum q)] = ynum (qofz (qround q)) /\
+  fx_call nm_abs [YS (VNum q)] = ynum (qn (Qabs q)).
+Proof. exact fx_floor_call. Qed.
+Print Assumptions C06_floor_ceil_round_call.
+
+Theorem C06_abs_sign : forall q,
+  0 <= qn (Qabs q) /\ (qn (Qabs q) == q \/ qn (Qabs q) == - q) /\
+  exists s, fx_call nm_sign [YS (VNum q)] = ynum s /\
+            ((0 < q /\ s = 1) \/ (q < 0 /\ s = inject_Z (-1)) \/ (q == 0 /\ s = 0)).
+Proof. exact abs_sign_spec. Qed.
+Print Assumptions C06_abs_sign.
+
+(* mod(x, y) = x - y * trunc(x / y) (the sign of x); a zero divisor is an error *)
+Theorem C06_mod : forall x y, ~ y == 0 ->
+  qmod x y == x - y * inject_Z (qtrunc (x / y)) /\
+  fx_call nm_mod [YS (VNum x); YS (VNum y)] = ynum (qmod x y) /\
+  fx_call nm_mod [YS (VNum x); YS (VNum 0)] = YErr.
+Proof. exact mod_spec. Qed.
+Print Assumptions C06_mod.
+
+Theorem C06_power : forall x (n m : nat),
+  qpown x 0 = 1 /\ qpown x (S n) == x * qpown x n /\ qpown x (n + m) == qpown x n * qpown x m.
+Proof. exact power_spec. Qed.
+Print Assumptions C06_power.
+
+(* trunc(x, p) cuts toward zero and is less than 10^-p away *)
+Theorem C06_trunc : forall q k,
+  let u := 1 / inject_Z (p10 k) in
+  (0 <= q -> trunc_val q k <= q /\ q < trunc_val q k + u) /\
+  (q < 0 -> q <= trunc_val q k /\ trunc_val q k - u < q).
+Proof. exact trunc_spec. Qed.
+Print Assumptions C06_trunc.
+Theorem C06_trunc_call : forall q (k : nat), (Z.of_nat k <= 15)%Z ->
+  fx_call nm_trunc [YS (VNum q); YS (VNum (inject_Z (Z.of_nat k)))] = ynum (trunc_val q k).
+Proof. exact fx_trunc_call. Qed.
+Print Assumptions C06_trunc_call.
+
+(* bitand / bitor / bitxor / bitnot on int64 values are the bitwise operations *)
+Theorem C06_bit_ops : forall a b, (Z.abs a < two63)%Z -> (Z.abs b < two63)%Z ->
+  fx_call nm_bitand [YS (VNum (inject_Z a)); YS (VNum (inject_Z b))] = yint (Z.land a b) /\
+  fx_call nm_bitor [YS (VNum (inject_Z a)); YS (VNum (inject_Z b))] = yint (Z.lor a b) /\
+  fx_call nm_bitxor [YS (VNum (inject_Z a)); YS (VNum (inject_Z b))] = yint (Z.lxor a b) /\
+  fx_call nm_bitnot [YS (VNum (inject_Z a))] = yint (Z.lnot a) /\
+  (forall i, (0 <= i)%Z ->
+     Z.testbit (Z.land a b) i = Z.testbit a i && Z.testbit b i /\
+     Z.testbit (Z.lor a b) i = Z.testbit a i || Z.testbit b i /\
+     Z.testbit (Z.lxor a b) i = xorb (Z.testbit a i) (Z.testbit b i) /\
+     Z.testbit (Z.lnot a) i = negb (Z.testbit a i)).
+Proof. exact bit_ops_spec. Qed.
+Print Assumptions C06_bit_ops.
+
+(* ---- conditionals and type tests ---- *)
+(* greatest / least over numbers return one of their arguments, which bounds all of them *)
+Theorem C06_greatest_least : forall (gt : bool) q0 qs,
+  exists qr, fx_call (if gt then nm_greatest else nm_least) (map (fun q => YS (VNum q)) (q0 :: qs)) = ynum qr /\
+             In qr (q0 :: qs) /\ forall q, In q (q0 :: qs) -> if gt then q <= qr else qr <= q.
+Proof. exact greatest_least_spec. Qed.
+Print Assumptions C06_greatest_least.
+
+(* coalesce returns its first argument that is not NULL, and NULL when every argument is NULL *)
+Theorem C06_coalesce : forall args, args <> [] ->
+  fx_call nm_coalesce args = YOk (first_non_null args) /\
+  (forall pre v post, args = pre ++ v :: post -> Forall (fun x => x = YS VNull) pre -> v <> YS VNull ->
+     first_non_null args = v) /\
+  (Forall (fun x => x = YS VNull) args -> first_non_null args = YS VNull).
+Proof. exact coalesce_spec. Qed.
+Print Assumptions C06_coalesce.
+
+(* null_if(x, y) is NULL when x equals y and x otherwise (so null_if(x, x) is NULL); if_null(x, y) is y for a NULL x *)
+Theorem C06_null_if : forall x y,
+  fx_call nm_null_if [x; y] = (if yeq x y then ynull else YOk x) /\
+  fx_call nm_if_null [x; y] = YOk (match x with YS VNull => y | _ => x end) /\
+  yeq x x = true.
+Proof. exact null_if_spec. Qed.
+Print Assumptions C06_null_if.
+
+Theorem C06_type_tests : forall v,
+  fx_call nm_is_null [v] = ybool (match v with YS VNull => true | _ => false end) /\
+  fx_call nm_is_not_null [v] = ybool (match v with YS VNull => false | _ => true end) /\
+  fx_call nm_is_numeric [v] = ybool (match v with YS (VNum _) => true | _ => false end) /\
+  fx_call nm_is_string [v] = ybool (match v with YS (VStr _) => true | _ => false end) /\
+  fx_call nm_is_bool [v] = ybool (match v with YS (VBool _) => true | _ => false end) /\
+  fx_call nm_is_array [v] = ybool (match v with YA _ => true | _ => false end) /\
+  fx_call nm_array_length [v] = (match v with YA l => yint (Z.of_nat (length l)) | YS _ => YErr end).
+Proof. exact type_tests_spec. Qed.
+Print Assumptions C06_type_tests.
+
+(* ---- conversions ---- *)
+(* the decimal text of an integer reads back as that integer (strconv.Itoa / Atoi), and through the
+   calls: cast(z, 'string') is the text, cast(text, 'int') is z, length(z) counts its characters *)
+Theorem C06_decimal_text : forall z, atoi (dec_of_Z z) = Some z.
+Proof. exact atoi_dec_of_Z. Qed.
+Print Assumptions C06_decimal_text.
+Theorem C06_cast_roundtrip : forall z, (Z.abs z < 10 ^ 15)%Z ->
+  fx_call nm_cast [YS (VNum (inject_Z z)); YS (VStr ty_string)] = ystr (dec_of_Z z) /\
+  fx_call nm_cast [YS (VStr (dec_of_Z z)); YS (VStr ty_int)] = yint z /\
+  fx_call nm_length [YS (VNum (inject_Z z))] = yint (Z.of_nat (length (dec_of_Z z))).
+Proof. exact cast_int_text_roundtrip. Qed.
+Print Assumptions C06_cast_roundtrip.
+
+(* hex2dec(dec2hex(z)) = z *)
+Theorem C06_hex_roundtrip : forall z, (Z.abs z < 16 ^ 15)%Z ->
+  parse_hex (hex_of_Z z) = OVal z /\
+  fx_call nm_dec2hex [YS (VNum (inject_Z z))] = ystr (hex_of_Z z) /\
+  fx_call nm_hex2dec [YS (VStr (hex_of_Z z))] = yint z.
+Proof. exact hex_text_roundtrip. Qed.
+Print Assumptions C06_hex_roundtrip.
+
+(* url_encode / url_decode and encode / decode with the formats 'url' and 'hex' are inverse on every
+   byte string; the hexadecimal text has two characters per byte *)
+Theorem C06_url_codec : forall s, Forall is_byte s -> url_unescape (url_escape s) = Some s.
+Proof. exact url_codec_roundtrip. Qed.
+Print Assumptions C06_url_codec.
+Theorem C06_hex_codec : forall s, Forall is_byte s ->
+  hex_decode (hex_encode s) = Some s /\ length (hex_encode s) = (2 * length s)%nat.
+Proof. exact hex_codec_roundtrip. Qed.
+Print Assumptions C06_hex_codec.
+Theorem C06_codec_calls : forall s, Forall is_byte s ->
+  fx_call nm_url_encode [YS (VStr s)] = ystr (url_escape s) /\
+  fx_call nm_url_decode [YS (VStr (url_escape s))] = ystr s /\
+  fx_call nm_encode [YS (VStr s); YS (VStr fmt_hex)] = ystr (hex_encode s) /\
+  fx_call nm_decode [YS (VStr (hex_encode s)); YS (VStr fmt_hex)] = ystr s /\
+  fx_call nm_encode [YS (VStr s); YS (VStr fmt_url)] = ystr (url_escape s) /\
+  fx_call nm_decode [YS (VStr (url_escape s)); YS (VStr fmt_url)] = ystr s.
+Proof. exact codec_calls_roundtrip. Qed.
+Print Assumptions C06_codec_calls.
+
+(* ---- the new model extends the old one ---- *)
+(* on scalar arguments a function of Model/ExprEval.v has the value it has there: what is proved about
+   fn_call (C06_pad_call, and through sem the agreement theorems above) holds of fx_call *)
+Theorem C06_call_extends : forall n a vs,
+  fx_arity n = Some a -> arity_ok a (length vs) = true ->
+  (forall v, fn_call n vs = FOk v -> fx_call n (map YS vs) = YOk (YS v)) /\
+  (fn_call n vs = FErr -> fx_call n (map YS vs) = YErr).
+Proof. exact fx_call_extends_fn_call. Qed.
+Print Assumptions C06_call_extends.
+Theorem C06_pad_call_x : forall (left : bool) (s : bytes) (n : nat) (pad : bytes),
+  fx_call (if left then nm_lpad else nm_rpad) [YS (VStr s); YS (VNum (inject_Z (Z.of_nat n))); YS (VStr pad)]
+  = ystr (pad_value left s n pad).
+Proof. exact fx_pad_call. Qed.
+Print Assumptions C06_pad_call_x.
+
+(* the two judges agree: where the reference semantics (sem, which judges the V / S / F lines) gives an
+   expression built from calls a value, the model of the built-ins (ysem, which judges the G lines)
+   gives the same value - or leaves it outside its fragment (a computed zero rendered as text) *)
+Theorem C06_call_model_consistent : forall row e v,
+  sem row e = Some v -> cols_ok row Strict e = true ->
+  ysem (lift_row row) e = YOk (YS v) \/ ysem (lift_row row) e = YUnm.
+Proof. exact ysem_consistent_with_sem. Qed.
+Print Assumptions C06_call_model_consistent.
+
 (* ---- where the code violates the statement (findings; witnesses replayed on the real engine) ---- *)
 Definition col_a : bytes := [97]%N.
 Definition case_a_gt_2 : xetop :=
@@ -114,3 +438,54 @@ Example C06_pad_example :
   sem_top [] (ETop (ECall nm_lpad [EStr hello; ENum 8; EStr [97;98]%N])) = Some (VStr ([97;98;97]%N ++ hello)) /\
   sem_top [] (ETop (ECall nm_rpad [EStr hello; ENum 6; EStr [120;121;122]%N])) = Some (VStr (hello ++ [120]%N)).
 Proof. vm_compute. split; reflexivity. Qed.
+
+(* ---- non-vacuity of the built-in theorems: each hypothesis is satisfiable on a non-trivial instance ---- *)
+Definition b_ (l : list N) : bytes := l.
+Example C06_funcs_example :
+  let x := VStr [120]%N in
+  let arr := [VNum 1; x; VNum 2; x; VNull; VBool true; VNum (2 # 2)] in
+  (* arrays: [1,'x',2,'x',NULL,true,1] *)
+  arr_distinct arr = [VNum 1; x; VNum 2; VNull; VBool true] /\
+  arr_remove arr x = [VNum 1; VNum 2; VNull; VBool true; VNum (2 # 2)] /\
+  arr_position arr (VNum 2) = 3%nat /\ mem_v (VNum 3) arr = false /\
+  arr_union arr [x; VNum 3] = [VNum 1; x; VNum 2; VNull; VBool true; VNum 3] /\
+  arr_intersect arr [x; VNum 3] = [x] /\
+  arr_except arr [x; VNum 3] = [VNum 1; VNum 2; VNull; VBool true] /\
+  (* strings: 'hello' *)
+  let hello := [104;101;108;108;111]%N in
+  replace_b hello [108]%N [76;76]%N = [104;101;76;76;76;76;111]%N /\
+  split_b hello [108]%N = [[104;101]%N; []; [111]%N] /\ contains hello [122]%N = false /\
+  substring_b hello (-2) None = [108;111]%N /\ substring_b hello 1 (Some 2%Z) = [101;108]%N /\
+  index_b hello [108]%N = 2%Z /\ index_b hello [122]%N = (-1)%Z /\
+  trim_both is_space_go [32;9;120;32;121;10]%N = [120;32;121]%N /\
+  all_ascii hello = true /\
+  (* numbers *)
+  qfloor (-5 # 2) = (-3)%Z /\ qceil (-5 # 2) = (-2)%Z /\ qround (-5 # 2) = (-3)%Z /\ qround (5 # 2) = 3%Z /\
+  trunc_val (-43 # 4) 1 == -107 # 10 /\ ~ (3 # 1) == 0 /\ qmod (-7) 3 == -1 /\
+  (Z.abs (-42) < 10 ^ 15)%Z /\ dec_of_Z (-42) = [45;52;50]%N /\ (Z.abs 6 < two63)%Z /\
+  (* calls *)
+  fx_call nm_upper [YS (VStr hello); YS (VStr hello)] = YErr /\
+  fx_arity nm_upper = Some (1%nat, Some 1%nat) /\ arity_ok (1%nat, Some 1%nat) 2 = false /\
+  fx_call nm_null_if [YS (VNum 3); YS (VNum (6 # 2))] = ynull /\
+  fx_call nm_array_contains [YA arr; YS (VNum 2)] = ybool true /\
+  fx_call nm_array_length [YS x] = YErr /\
+  fx_call nm_hex2dec [YS (VStr [45;49;102]%N)] = yint (-31) /\
+  fx_call nm_chr [YS (VNum 128)] = YErr /\
+  fx_call nm_power [YS (VNum 2); YS (VNum (-1))] = ynum (1 # 2) /\
+  fx_call nm_coalesce [YS VNull; YA []; YS x] = YOk (YA []) /\
+  Forall is_byte [97; 32; 38; 233]%N /\ url_escape [97; 32; 38; 233]%N = [97; 43; 37; 50; 54; 37; 69; 57]%N /\
+  hex_encode [97; 255]%N = [54; 49; 102; 102]%N /\ (Z.abs (-31) < 16 ^ 15)%Z /\ hex_of_Z (-31) = [45; 49; 102]%N /\
+  fx_call nm_decode [YS (VStr [54]%N); YS (VStr fmt_hex)] = YErr.
+Proof.
+  vm_compute. repeat split; try reflexivity; try discriminate.
+  repeat constructor.
+Qed.
+
+(* upper(lpad(s, 7, 'ab')) on s = 'hello': both semantics give 'ABHELLO' *)
+Example C06_consistent_example :
+  let hello := [104;101;108;108;111]%N in
+  let row := [([115]%N, VStr hello)] in
+  let e := ECall nm_upper [ECall nm_lpad [ECol [115]%N; ENum 7; EStr [97;98]%N]] in
+  sem row e = Some (VStr [65;66;72;69;76;76;79]%N) /\ cols_ok row Strict e = true /\
+  ysem (lift_row row) e = YOk (YS (VStr [65;66;72;69;76;76;79]%N)).
+Proof. vm_compute. repeat split; reflexivity. Qed.
